@@ -25,10 +25,19 @@
   one call to the next (`calls_perCall`, `reused_object_same_as_fresh`, `reused_object_rerun_same`);
   `runner_kept_counterexample`: a runner kept on the object breaks it.
 
+  An operation that has no effect RAISES and ends its run (`RunHeap.State.dead`): every statement about
+  a run's result is about its arena AND its outcome.  Section 8: the READING of steps (`RunHeap.Instr`,
+  `opsOf`) is part of the model: `reading_is_fixed`, schedules at step granularity,
+  `interleaving_commutes_steps`, `rerun_same_trace` (equal programs, not equal operation lists).
+  Section 9: shared by reference but never written (`tuple_and_atom_immutable`,
+  `defs_unchanged_shared_readonly`, what a `Pipeline` object holds).
+
   Not claimed here (model limits): interleavings below operation granularity, module-level state
-  outside definitions/config (step/parser/backoff caches hold code objects, not data).
+  outside definitions/config (step/parser/backoff caches hold code objects, not data); paths do not
+  lead through the attributes of opaque objects.
 -/
-import Props.Lemmas.C12_Twin
+import Props.Lemmas.C12_Read
+import Props.Lemmas.C12_Frozen
 
 namespace Pypyr.C12
 open Pypyr.RunHeap
@@ -39,6 +48,10 @@ open Pypyr.RunHeap
 def exDefs : List Block := [[.dict [("lst", 1)], .list [2], .leaf (.int 0)]]
 def exCfg : Block := [.dict [("cv", 1)], .dict [("n", 2)], .leaf (.int 1)]
 def exH : Heap := Heap.init exDefs exCfg
+/-- the process right after loading: no run has started, none has failed -/
+def exSt : State := State.loaded exDefs exCfg
+
+theorem exSt_sep : Sep exSt.heap := init_sep _ _ (by decide) (by decide)
 
 /-- one run of the example pipeline: context `{a: 5}`, `in` argument copied, list appended to in
     place, config vars copied and a nested value overwritten in place, `in` argument removed -/
@@ -57,106 +70,131 @@ def exSched : Sched :=
 
 theorem exSched_fixed : SchedFixed exSched := by decide
 
-example : deepVal 9 (exec exSched exH) (root 1) =
+example : deepVal 9 (exec exSched exSt).heap (root 1) =
     .dict [(.str "a", .int 5), (.str "keep", .list [.int 0, .int 1]),
            (.str "cv", .dict [(.str "n", .int 9)])] := by decide +kernel
 
 /-! ### 1. the separation invariant -/
 
-/-- `Sep` read region by region: the objects of every run reference that run's objects only, and
-    every definition / the configuration is a closed object graph. -/
+/-- `Sep` read region by region: the objects of every run reference that run's objects only,
+    every definition / the configuration is a closed object graph of plain data. -/
 theorem sep_iff_closed (h : Heap) :
     Sep h ↔ (∀ r, ∀ c ∈ h.arena (.run r), ∀ x ∈ c.refs, x.reg = .run r) ∧
-            (∀ g, g.isShared = true → ∀ c ∈ h.arena g, ∀ x ∈ c.refs, x.reg = g) := by
+            (∀ g, g.isShared = true → ∀ c ∈ h.arena g, (∀ x ∈ c.refs, x.reg = g) ∧ c.isObj = false) := by
   constructor
   · intro hS
-    exact ⟨fun r => hS (.run r), fun g _ => hS g⟩
-  · intro ⟨hr, hs⟩ g
+    exact ⟨fun r => hS.closed (.run r), fun g hg c hc => ⟨hS.closed g c hc, hS.plain g hg c hc⟩⟩
+  · intro ⟨hr, hs⟩
+    refine ⟨?_, fun g hg c hc => (hs g hg c hc).2⟩
+    intro g
     cases g with
     | run r => exact hr r
-    | defn p => exact hs _ rfl
-    | config => exact hs _ rfl
+    | defn p => exact fun c hc => (hs _ rfl c hc).1
+    | config => exact fun c hc => (hs _ rfl c hc).1
 
-/-- What the loaders produce is separated: no well-formedness condition on the blocks is needed,
-    a relocated block references its own region by construction. -/
-theorem sep_init (defs : List Block) (cfg : Block) : Sep (Heap.init defs cfg) := init_sep defs cfg
+/-- What the loaders produce is separated: no well-formedness condition on the shape of the blocks is
+    needed (a relocated block references its own region by construction), only that they are plain data
+    (`PlainBlock`: no opaque objects – yaml, toml and json loaders build dicts, lists, sets and atoms). -/
+theorem sep_init (defs : List Block) (cfg : Block) (hd : ∀ b ∈ defs, PlainBlock b) (hc : PlainBlock cfg) :
+    Sep (State.loaded defs cfg).heap := init_sep defs cfg hd hc
 
-example : Sep exH := sep_init _ _
+example : Sep exSt.heap := exSt_sep
 
 /-- Every operation of the code as it is now preserves separation, for every run. -/
-theorem sep_step {h : Heap} (hS : Sep h) (r : Nat) {op : Op} (hf : op.fixed = true) :
-    Sep (step h r op) := step_sep hS r hf
+theorem sep_step {st : State} (hS : Sep st.heap) (r : Nat) {op : Op} (hf : op.fixed = true) :
+    Sep (step st r op).heap := step_sep hS r hf
 
-example : Sep (step (step exH 1 (.start [.dict []])) 1 (.inCopy "lst" ⟨.defn 0, 1⟩)) :=
-  sep_step (sep_step (sep_init _ _) 1 rfl) 1 rfl
+example : Sep (step (step exSt 1 (.start [.dict []])) 1 (.inCopy "lst" ⟨.defn 0, 1⟩)).heap :=
+  sep_step (sep_step exSt_sep 1 rfl) 1 rfl
 
 /-- `sep_invariant`: separation holds after any schedule of any number of runs. -/
-theorem sep_invariant {s : Sched} (hs : SchedFixed s) {h : Heap} (hS : Sep h) : Sep (exec s h) :=
+theorem sep_invariant {s : Sched} (hs : SchedFixed s) {st : State} (hS : Sep st.heap) : Sep (exec s st).heap :=
   exec_sep hs hS
 
-example : Sep (exec exSched exH) := sep_invariant (s := exSched) (h := exH) exSched_fixed (sep_init _ _)
+example : Sep (exec exSched exSt).heap := sep_invariant (s := exSched) (st := exSt) exSched_fixed exSt_sep
 
 /-- From a context, nothing but the run's own objects can be reached: `Sep` is what the
     id()-graph observation of the harness (`foreignReach = ∅`) sees. -/
 theorem reach_own {h : Heap} (hS : Sep h) {r : Nat} {p : Path} {x : Ref}
     (hx : resolve h (root r) p = some x) : x.reg = .run r := resolve_reg hS hx
 
-example : resolve (exec exSched exH) (root 1) [.key "cv", .key "n"] = some ⟨.run 1, 9⟩ := by
+example : resolve (exec exSched exSt).heap (root 1) [.key "cv", .key "n"] = some ⟨.run 1, 9⟩ := by
   decide +kernel
 
 /-! ### 2. definitions and configuration are never modified -/
 
 /-- `defs_unchanged`: after any schedule every shared arena – every cached definition, the
     configuration – is exactly (object for object) what it was. -/
-theorem defs_unchanged {s : Sched} (hs : SchedFixed s) {h : Heap} (hS : Sep h) :
-    ∀ g, g.isShared = true → (exec s h).arena g = h.arena g :=
+theorem defs_unchanged {s : Sched} (hs : SchedFixed s) {st : State} (hS : Sep st.heap) :
+    ∀ g, g.isShared = true → (exec s st).heap.arena g = st.heap.arena g :=
   fun _ hg => exec_arena_shared hs hS hg
 
-example : (exec exSched exH).arena (.defn 0) = exH.arena (.defn 0) :=
-  defs_unchanged (s := exSched) (h := exH) exSched_fixed (sep_init _ _) (.defn 0) rfl
+example : (exec exSched exSt).heap.arena (.defn 0) = exSt.heap.arena (.defn 0) :=
+  defs_unchanged (s := exSched) (st := exSt) exSched_fixed exSt_sep (.defn 0) rfl
 
 /-- "After any run every cached definition is deep-equal to what its loader produced": the deep
     value of every object of a shared region is unchanged (any fuel). -/
-theorem defs_deep_equal {s : Sched} (hs : SchedFixed s) {h : Heap} (hS : Sep h) (n : Nat) {x : Ref}
-    (hx : x.reg.isShared = true) : deepVal n (exec s h) x = deepVal n h x :=
+theorem defs_deep_equal {s : Sched} (hs : SchedFixed s) {st : State} (hS : Sep st.heap) (n : Nat) {x : Ref}
+    (hx : x.reg.isShared = true) : deepVal n (exec s st).heap x = deepVal n st.heap x :=
   deepVal_region hS (defs_unchanged hs hS _ hx) n rfl
 
 /-- the same, spelled out for the state the loaders produced -/
-theorem defs_equal_loader (defs : List Block) (cfg : Block) {s : Sched} (hs : SchedFixed s) (n p i : Nat) :
-    deepVal n (exec s (Heap.init defs cfg)) ⟨.defn p, i⟩ = deepVal n (Heap.init defs cfg) ⟨.defn p, i⟩ ∧
-    deepVal n (exec s (Heap.init defs cfg)) ⟨.config, i⟩ = deepVal n (Heap.init defs cfg) ⟨.config, i⟩ :=
-  ⟨defs_deep_equal hs (sep_init _ _) n rfl, defs_deep_equal hs (sep_init _ _) n rfl⟩
+theorem defs_equal_loader (defs : List Block) (cfg : Block) (hd : ∀ b ∈ defs, PlainBlock b) (hc : PlainBlock cfg)
+    {s : Sched} (hs : SchedFixed s) (n p i : Nat) :
+    deepVal n (exec s (State.loaded defs cfg)).heap ⟨.defn p, i⟩ = deepVal n (Heap.init defs cfg) ⟨.defn p, i⟩ ∧
+    deepVal n (exec s (State.loaded defs cfg)).heap ⟨.config, i⟩ = deepVal n (Heap.init defs cfg) ⟨.config, i⟩ :=
+  ⟨defs_deep_equal hs (sep_init _ _ hd hc) n rfl, defs_deep_equal hs (sep_init _ _ hd hc) n rfl⟩
 
-example : deepVal 5 (exec exSched exH) ⟨.defn 0, 0⟩ = .dict [(.str "lst", .list [.int 0])] ∧
-    deepVal 5 (exec exSched exH) varsRef = .dict [(.str "cv", .dict [(.str "n", .int 1)])] := by
+example : deepVal 5 (exec exSched exSt).heap ⟨.defn 0, 0⟩ = .dict [(.str "lst", .list [.int 0])] ∧
+    deepVal 5 (exec exSched exSt).heap varsRef = .dict [(.str "cv", .dict [(.str "n", .int 1)])] := by
   decide +kernel
 
 /-! ### 3. interleaving -/
 
 /-- `interleaving_commutes`: in any schedule, run r ends with exactly the arena it produces when
-    its operations run alone from the same heap: the operations of other runs neither write to run
-    r's objects nor change anything run r's operations read. -/
-theorem interleaving_commutes {s : Sched} (hs : SchedFixed s) {h : Heap} (hS : Sep h) (r : Nat) :
-    (exec s h).arena (.run r) = (exec (proj r s) h).arena (.run r) := by
-  have hT := exec_proj_twin (r := r) hs hS (twin_refl r h)
-  rw [hT.own, map_renCell_self]
+    its operations run alone from the same state, AND WITH THE SAME OUTCOME: it is over because an
+    operation raised in the one iff it is in the other (then at the same operation: what was executed
+    before is the same).  The operations of other runs – also those that raise and end THEIR run –
+    neither write to run r's objects nor change anything run r's operations read. -/
+theorem interleaving_commutes {s : Sched} (hs : SchedFixed s) {st : State} (hS : Sep st.heap) (r : Nat) :
+    (exec s st).heap.arena (.run r) = (exec (proj r s) st).heap.arena (.run r) ∧
+    (exec s st).dead r = (exec (proj r s) st).dead r := by
+  have hT := exec_proj_twin (r := r) hs hS (twin_refl r st)
+  refine ⟨?_, hT.dead.symm⟩
+  rw [hT.heap.own, map_renCell_self]
 
-example : (exec exSched exH).arena (.run 2) = (exec (solo 2 exOps) exH).arena (.run 2) :=
-  interleaving_commutes (s := exSched) (h := exH) exSched_fixed (sep_init _ _) 2
+example : (exec exSched exSt).heap.arena (.run 2) = (exec (solo 2 exOps) exSt).heap.arena (.run 2) :=
+  (interleaving_commutes (s := exSched) (st := exSt) exSched_fixed exSt_sep 2).1
 
-/-- The whole heap after a schedule is determined by the per-run operation sequences: two
-    interleavings of the same runs end in the same heap. -/
-theorem interleavings_agree {s1 s2 : Sched} (h1 : SchedFixed s1) (h2 : SchedFixed s2) {h : Heap}
-    (hS : Sep h) (hp : ∀ r, proj r s1 = proj r s2) : ∀ g, (exec s1 h).arena g = (exec s2 h).arena g := by
+/-- run 1 raises at its third operation (append to a key that is not there), run 2 goes on: -/
+def exFailOps : List Op :=
+  [.start [.dict [("a", 1)], .leaf (.int 5)], .setKey "b" [.list []], .appendAt [.key "nokey"] [.leaf (.int 1)],
+   .setKey "after" [.leaf (.int 1)]]
+def exFailSched : Sched :=
+  (List.zip (solo 1 exFailOps) (solo 2 exOps)).flatMap (fun p => [p.1, p.2]) ++ solo 2 (exOps.drop 4)
+
+/-- …run 1 is over with the context it had when the operation raised (`after` is never set), run 2
+    ends as it does alone, and both facts are instances of `interleaving_commutes`. -/
+example : (exec exFailSched exSt).dead 1 = true ∧ (exec exFailSched exSt).dead 2 = false ∧
+    deepVal 5 (exec exFailSched exSt).heap (root 1) = .dict [(.str "a", .int 5), (.str "b", .list [])] ∧
+    deepVal 9 (exec exFailSched exSt).heap (root 2) = deepVal 9 (exec (solo 2 exOps) exSt).heap (root 2) := by
+  decide +kernel
+
+/-- The whole heap after a schedule, and which runs are over, is determined by the per-run operation
+    sequences: two interleavings of the same runs end in the same state. -/
+theorem interleavings_agree {s1 s2 : Sched} (h1 : SchedFixed s1) (h2 : SchedFixed s2) {st : State}
+    (hS : Sep st.heap) (hp : ∀ r, proj r s1 = proj r s2) :
+    (∀ g, (exec s1 st).heap.arena g = (exec s2 st).heap.arena g) ∧ (∀ r, (exec s1 st).dead r = (exec s2 st).dead r) := by
+  refine ⟨?_, fun r => by rw [(interleaving_commutes h1 hS r).2, (interleaving_commutes h2 hS r).2, hp r]⟩
   intro g
   cases g with
-  | run r => rw [interleaving_commutes h1 hS r, interleaving_commutes h2 hS r, hp r]
+  | run r => rw [(interleaving_commutes h1 hS r).1, (interleaving_commutes h2 hS r).1, hp r]
   | defn p => rw [defs_unchanged h1 hS _ rfl, defs_unchanged h2 hS _ rfl]
   | config => rw [defs_unchanged h1 hS _ rfl, defs_unchanged h2 hS _ rfl]
 
-example : ∀ g, (exec exSched exH).arena g = (exec (solo 3 exOps ++ solo 2 exOps ++ solo 1 exOps) exH).arena g :=
-  interleavings_agree (s1 := exSched) (s2 := solo 3 exOps ++ solo 2 exOps ++ solo 1 exOps) (h := exH)
-    exSched_fixed (by decide) (sep_init _ _) (by
+example : ∀ g, (exec exSched exSt).heap.arena g = (exec (solo 3 exOps ++ solo 2 exOps ++ solo 1 exOps) exSt).heap.arena g :=
+  (interleavings_agree (s1 := exSched) (s2 := solo 3 exOps ++ solo 2 exOps ++ solo 1 exOps) (st := exSt)
+    exSched_fixed (by decide) exSt_sep (by
     intro r
     by_cases h1 : r = 1
     · subst h1; decide
@@ -169,64 +207,66 @@ example : ∀ g, (exec exSched exH).arena g = (exec (solo 3 exOps ++ solo 2 exOp
         simp only [proj, List.filter_eq_nil_iff, decide_eq_true_eq]
         intro e he
         rcases hs e he with h | h | h <;> omega
-      rw [this _ (by decide), this _ (by decide)])
+      rw [this _ (by decide), this _ (by decide)])).1
 
 /-- Every observation of run r's final context (its deep value) is its solo observation. -/
-theorem interleaving_same_context {s : Sched} (hs : SchedFixed s) {h : Heap} (hS : Sep h) (r n : Nat) :
-    deepVal n (exec s h) (root r) = deepVal n (exec (proj r s) h) (root r) := by
+theorem interleaving_same_context {s : Sched} (hs : SchedFixed s) {st : State} (hS : Sep st.heap) (r n : Nat) :
+    deepVal n (exec s st).heap (root r) = deepVal n (exec (proj r s) st).heap (root r) := by
   have hp : SchedFixed (proj r s) := fun e he => hs e (List.mem_filter.1 he).1
-  exact (deepVal_region (exec_sep hp hS) (interleaving_commutes hs hS r) n rfl)
+  exact (deepVal_region (exec_sep hp hS) (interleaving_commutes hs hS r).1 n rfl)
 
 /-! ### 4. running again gives the same result -/
 
 /-- `rerun_same`: if two runs r1, r2 that have not started execute the same operation list
     anywhere inside a schedule – one after the other, in either order, interleaved with each other,
     with any other runs before, between and during – then run r2's arena is run r1's arena with
-    the region renamed: the same objects, the same sharing, the same values. -/
-theorem rerun_same {s : Sched} (hs : SchedFixed s) {h : Heap} (hS : Sep h) {r1 r2 : Nat} {ops : List Op}
-    (h1 : h.arena (.run r1) = []) (h2 : h.arena (.run r2) = [])
+    the region renamed: the same objects, the same sharing, the same values; and run r2 is over
+    (an operation raised) iff run r1 is. -/
+theorem rerun_same {s : Sched} (hs : SchedFixed s) {st : State} (hS : Sep st.heap) {r1 r2 : Nat} {ops : List Op}
+    (h1 : st.heap.arena (.run r1) = []) (h2 : st.heap.arena (.run r2) = []) (hd : st.dead r2 = st.dead r1)
     (p1 : proj r1 s = solo r1 ops) (p2 : proj r2 s = solo r2 ops) :
-    (exec s h).arena (.run r2) = ((exec s h).arena (.run r1)).map (renCell r1 r2) := by
+    (exec s st).heap.arena (.run r2) = ((exec s st).heap.arena (.run r1)).map (renCell r1 r2) ∧
+    (exec s st).dead r2 = (exec s st).dead r1 := by
   have hops : ∀ o ∈ ops, o.fixed = true := by
     intro o ho
     have hm : (r1, o) ∈ proj r1 s := by rw [p1]; exact List.mem_map.2 ⟨o, ho, rfl⟩
     exact hs _ (List.mem_filter.1 hm).1
-  have hT0 : Twin r1 r2 h h := ⟨fun _ _ => rfl, by rw [h1, h2]; rfl⟩
+  have hT0 : Twin r1 r2 st st := ⟨⟨fun _ _ => rfl, by rw [h1, h2]; rfl⟩, hd⟩
   have hT := exec_solo_twin hops hS hT0
-  rw [interleaving_commutes hs hS r2, interleaving_commutes hs hS r1, p1, p2]
-  exact hT.own
+  rw [(interleaving_commutes hs hS r2).1, (interleaving_commutes hs hS r1).1,
+      (interleaving_commutes hs hS r2).2, (interleaving_commutes hs hS r1).2, p1, p2]
+  exact ⟨hT.heap.own, hT.dead⟩
 
-example : (exec exSched exH).arena (.run 3) = ((exec exSched exH).arena (.run 1)).map (renCell 1 3) :=
-  rerun_same (s := exSched) (h := exH) (r1 := 1) (r2 := 3) (ops := exOps) exSched_fixed (sep_init _ _) rfl rfl
-    (by decide) (by decide)
+example : (exec exSched exSt).heap.arena (.run 3) = ((exec exSched exSt).heap.arena (.run 1)).map (renCell 1 3) :=
+  (rerun_same (s := exSched) (st := exSt) (r1 := 1) (r2 := 3) (ops := exOps) exSched_fixed exSt_sep rfl rfl rfl
+    (by decide) (by decide)).1
 
 /-- …consequently the final contexts of the two runs are deep-equal (any fuel). -/
-theorem rerun_same_context {s : Sched} (hs : SchedFixed s) {h : Heap} (hS : Sep h) {r1 r2 : Nat}
-    {ops : List Op} (h1 : h.arena (.run r1) = []) (h2 : h.arena (.run r2) = [])
+theorem rerun_same_context {s : Sched} (hs : SchedFixed s) {st : State} (hS : Sep st.heap) {r1 r2 : Nat}
+    {ops : List Op} (h1 : st.heap.arena (.run r1) = []) (h2 : st.heap.arena (.run r2) = [])
+    (hd : st.dead r2 = st.dead r1)
     (p1 : proj r1 s = solo r1 ops) (p2 : proj r2 s = solo r2 ops) (n : Nat) :
-    deepVal n (exec s h) (root r2) = deepVal n (exec s h) (root r1) := by
-  have hT : Twin r1 r2 (exec s h) (exec s h) := ⟨fun _ _ => rfl, rerun_same hs hS h1 h2 p1 p2⟩
+    deepVal n (exec s st).heap (root r2) = deepVal n (exec s st).heap (root r1) := by
+  have hT : HTwin r1 r2 (exec s st).heap (exec s st).heap := ⟨fun _ _ => rfl, (rerun_same hs hS h1 h2 hd p1 p2).1⟩
   have := deepVal_twin (exec_sep hs hS) hT n (x := root r1) rfl
   rwa [ren_root] at this
 
-example : deepVal 9 (exec exSched exH) (root 3) = deepVal 9 (exec exSched exH) (root 1) :=
-  rerun_same_context (s := exSched) (h := exH) (r1 := 1) (r2 := 3) (ops := exOps) exSched_fixed (sep_init _ _)
-    rfl rfl (by decide) (by decide) 9
+example : deepVal 9 (exec exSched exSt).heap (root 3) = deepVal 9 (exec exSched exSt).heap (root 1) :=
+  rerun_same_context (s := exSched) (st := exSt) (r1 := 1) (r2 := 3) (ops := exOps) exSched_fixed exSt_sep
+    rfl rfl rfl (by decide) (by decide) 9
 
 /-- Re-running later in the same process: run r2 executing `ops` after ANY history `s` of other
     runs (which included run r1 executing `ops` alone from the loader state) ends with the context
-    run r1 ended with. -/
-theorem rerun_after_history (defs : List Block) (cfg : Block) {s : Sched} (hs : SchedFixed s)
+    run r1 ended with, and with its outcome. -/
+theorem rerun_after_history (defs : List Block) (cfg : Block) (hd : ∀ b ∈ defs, PlainBlock b) (hc : PlainBlock cfg)
+    {s : Sched} (hs : SchedFixed s)
     {r1 r2 : Nat} {ops : List Op} (hops : ∀ o ∈ ops, o.fixed = true)
     (p1 : proj r1 s = solo r1 ops) (p2 : proj r2 s = []) (n : Nat) :
-    deepVal n (exec (s ++ solo r2 ops) (Heap.init defs cfg)) (root r2) =
-      deepVal n (exec (solo r1 ops) (Heap.init defs cfg)) (root r1) := by
-  have hs' : SchedFixed (s ++ solo r2 ops) := by
-    intro e he
-    rcases List.mem_append.1 he with h | h
-    · exact hs e h
-    · obtain ⟨o, ho, rfl⟩ := List.mem_map.1 h
-      exact hops o ho
+    deepVal n (exec (s ++ solo r2 ops) (State.loaded defs cfg)).heap (root r2) =
+      deepVal n (exec (solo r1 ops) (State.loaded defs cfg)).heap (root r1) ∧
+    (exec (s ++ solo r2 ops) (State.loaded defs cfg)).dead r2 = (exec (solo r1 ops) (State.loaded defs cfg)).dead r1 := by
+  have hs' : SchedFixed (s ++ solo r2 ops) := hs.append (schedFixed_solo hops)
+  have hS0 := sep_init defs cfg hd hc
   have hne : r1 ≠ r2 ∨ ops = [] := by
     by_cases hr : r1 = r2
     · subst hr
@@ -250,8 +290,9 @@ theorem rerun_after_history (defs : List Block) (cfg : Block) {s : Sched} (hs : 
       rintro e ⟨o, _, rfl⟩; rfl
     simp only [proj, List.filter_append] at this p2 ⊢
     rw [p2, this, List.nil_append]
-  rw [rerun_same_context hs' (sep_init _ _) rfl rfl q1 q2 n,
-      interleaving_same_context hs' (sep_init _ _) r1 n, q1]
+  refine ⟨?_, ?_⟩
+  · rw [rerun_same_context (r1 := r1) (r2 := r2) hs' hS0 rfl rfl rfl q1 q2 n, interleaving_same_context hs' hS0 r1 n, q1]
+  · rw [(rerun_same (r1 := r1) (r2 := r2) hs' hS0 rfl rfl rfl q1 q2).2, (interleaving_commutes hs' hS0 r1).2, q1]
 
 /-! ### 5. the pre-repair code breaks all of this -/
 
@@ -267,30 +308,33 @@ def oldCfgOps : List Op :=
 def newCfgOps : List Op :=
   [.start [.dict []], .configvarsCopy, .dictSetAt [.key "cv"] "n" [.leaf (.int 9)]]
 
+/-- the heap after a schedule from the example's loader state -/
+def exRun (s : Sched) : Heap := (exec s exSt).heap
+
 /-- `aliasing_counterexample_pre_fix`: with the old aliasing operations one run changes the cached
     definition (`[0]` becomes `[0, 1]`, and `[0, 1, 1]` after a second run, whose context therefore
     differs from the first run's) and the configuration; separation is lost; the same programs
     with the copying operations of the repaired code change nothing. -/
 theorem aliasing_counterexample_pre_fix :
     -- old `in`: the definition arena changes, deep value [0] → [0, 1] → [0, 1, 1]
-    (exec (solo 1 oldOps) exH).arena (.defn 0) ≠ exH.arena (.defn 0) ∧
+    (exRun (solo 1 oldOps)).arena (.defn 0) ≠ exH.arena (.defn 0) ∧
     deepVal 5 exH ⟨.defn 0, 1⟩ = .list [.int 0] ∧
-    deepVal 5 (exec (solo 1 oldOps) exH) ⟨.defn 0, 1⟩ = .list [.int 0, .int 1] ∧
-    deepVal 5 (exec (solo 1 oldOps ++ solo 2 oldOps) exH) ⟨.defn 0, 1⟩ = .list [.int 0, .int 1, .int 1] ∧
+    deepVal 5 (exRun (solo 1 oldOps)) ⟨.defn 0, 1⟩ = .list [.int 0, .int 1] ∧
+    deepVal 5 (exRun (solo 1 oldOps ++ solo 2 oldOps)) ⟨.defn 0, 1⟩ = .list [.int 0, .int 1, .int 1] ∧
     -- the second run's context differs from the first's, and the definition object is reachable from a context
-    deepVal 5 (exec (solo 1 oldOps ++ solo 2 oldOps) exH) (root 2) ≠
-      deepVal 5 (exec (solo 1 oldOps) exH) (root 1) ∧
-    foreignReach 20 (exec (solo 1 oldOps) exH) 1 = [⟨.defn 0, 1⟩] ∧
+    deepVal 5 (exRun (solo 1 oldOps ++ solo 2 oldOps)) (root 2) ≠
+      deepVal 5 (exRun (solo 1 oldOps)) (root 1) ∧
+    foreignReach 20 (exRun (solo 1 oldOps)) 1 = [⟨.defn 0, 1⟩] ∧
     -- old configvars: config changes
-    (exec (solo 1 oldCfgOps) exH).arena .config ≠ exH.arena .config ∧
-    deepVal 5 (exec (solo 1 oldCfgOps) exH) varsRef = .dict [(.str "cv", .dict [(.str "n", .int 9)])] ∧
+    (exRun (solo 1 oldCfgOps)).arena .config ≠ exH.arena .config ∧
+    deepVal 5 (exRun (solo 1 oldCfgOps)) varsRef = .dict [(.str "cv", .dict [(.str "n", .int 9)])] ∧
     -- the code as it is now: nothing shared changes, nothing foreign is reachable, re-run is equal
-    (exec (solo 1 newOps ++ solo 2 newOps) exH).arena (.defn 0) = exH.arena (.defn 0) ∧
-    (exec (solo 1 newCfgOps) exH).arena .config = exH.arena .config ∧
-    foreignReach 20 (exec (solo 1 newOps) exH) 1 = [] ∧
-    foreignReach 20 (exec (solo 1 newCfgOps) exH) 1 = [] ∧
-    deepVal 5 (exec (solo 1 newOps ++ solo 2 newOps) exH) (root 2) =
-      deepVal 5 (exec (solo 1 newOps) exH) (root 1) := by
+    (exRun (solo 1 newOps ++ solo 2 newOps)).arena (.defn 0) = exH.arena (.defn 0) ∧
+    (exRun (solo 1 newCfgOps)).arena .config = exH.arena .config ∧
+    foreignReach 20 (exRun (solo 1 newOps)) 1 = [] ∧
+    foreignReach 20 (exRun (solo 1 newCfgOps)) 1 = [] ∧
+    deepVal 5 (exRun (solo 1 newOps ++ solo 2 newOps)) (root 2) =
+      deepVal 5 (exRun (solo 1 newOps)) (root 1) := by
   decide +kernel
 
 /-- `config.vars = {}` (cell 0) and `config.shortcuts = {sc: {parser_args: [a]}}` (cells 1…4). -/
@@ -304,28 +348,30 @@ def oldParserOps : List Op :=
 def newParserOps : List Op :=
   [.start [.dict []], .setKey "argList" [.list [1], .leaf (.str "a")], .appendAt [.key "argList"] [.leaf (.str "x")]]
 
+def scRun (s : Sched) : Heap := (exec s (State.loaded [] exCfgSc)).heap
+
 /-- The same defect shape on `config.shortcuts[..]['parser_args']` (found by this property's
     harness, repaired by 5922e42): the old code changes the configuration and the second run's
     context differs from the first's; the repaired code does neither. -/
 theorem aliasing_counterexample_parser_args_pre_fix :
-    (exec (solo 1 oldParserOps) (Heap.init [] exCfgSc)).arena .config ≠ (Heap.init [] exCfgSc).arena .config ∧
-    deepVal 5 (exec (solo 1 oldParserOps) (Heap.init [] exCfgSc)) (root 1) =
+    (scRun (solo 1 oldParserOps)).arena .config ≠ (Heap.init [] exCfgSc).arena .config ∧
+    deepVal 5 (scRun (solo 1 oldParserOps)) (root 1) =
       .dict [(.str "argList", .list [.str "a", .str "x"])] ∧
-    deepVal 5 (exec (solo 1 oldParserOps ++ solo 2 oldParserOps) (Heap.init [] exCfgSc)) (root 2) =
+    deepVal 5 (scRun (solo 1 oldParserOps ++ solo 2 oldParserOps)) (root 2) =
       .dict [(.str "argList", .list [.str "a", .str "x", .str "x"])] ∧
-    foreignReach 20 (exec (solo 1 oldParserOps) (Heap.init [] exCfgSc)) 1 = [⟨.config, 3⟩] ∧
-    (exec (solo 1 newParserOps ++ solo 2 newParserOps) (Heap.init [] exCfgSc)).arena .config =
+    foreignReach 20 (scRun (solo 1 oldParserOps)) 1 = [⟨.config, 3⟩] ∧
+    (scRun (solo 1 newParserOps ++ solo 2 newParserOps)).arena .config =
       (Heap.init [] exCfgSc).arena .config ∧
-    deepVal 5 (exec (solo 1 newParserOps ++ solo 2 newParserOps) (Heap.init [] exCfgSc)) (root 2) =
+    deepVal 5 (scRun (solo 1 newParserOps ++ solo 2 newParserOps)) (root 2) =
       .dict [(.str "argList", .list [.str "a", .str "x"])] ∧
-    foreignReach 20 (exec (solo 1 newParserOps) (Heap.init [] exCfgSc)) 1 = [] := by
+    foreignReach 20 (scRun (solo 1 newParserOps)) 1 = [] := by
   decide +kernel
 
 /-- The old operations are exactly what `Sep` excludes: after the old `in` the run's context
     object references a definition object. -/
-theorem aliasing_breaks_sep : ¬ Sep (exec (solo 1 oldOps) exH) := by
+theorem aliasing_breaks_sep : ¬ Sep (exRun (solo 1 oldOps)) := by
   intro hS
-  have := hS (.run 1) (.dict [("lst", ⟨.defn 0, 1⟩)]) (by decide +kernel) ⟨.defn 0, 1⟩ (by decide)
+  have := hS.closed (.run 1) (.dict [("lst", ⟨.defn 0, 1⟩)]) (by decide +kernel) ⟨.defn 0, 1⟩ (by decide)
   cases this
 
 /-! ### 6. decorator inputs are copied by formatting before use
@@ -335,28 +381,33 @@ theorem aliasing_breaks_sep : ¬ Sep (exec (solo 1 oldOps) exH) := by
   value under `context['runErrors']`: operation `fmtSetAt path k src keep` of the model.  A formatter
   REBUILDS an object or RETURNS IT AS IT IS (`keep`, see `RunHeap.shiftKeep`); the code as it is
   rebuilds every container, also an empty one (`keep = []`), and is then part of the fixed operation
-  language: every theorem above covers it.  -/
+  language: every theorem above covers it.  (Opaque objects are always returned as they are; the
+  shared regions hold none: `Sep.plain`.) -/
 
 /-- Formatting a (brace-free) definition object with a formatter that rebuilds every container IS a
     deep copy: binding a formatted item under `key` has exactly the effect of the `in` deep copy. -/
-theorem fmt_rebuild_is_deep_copy (h : Heap) (r : Nat) (key : String) (src : Ref) :
+theorem fmt_rebuild_is_deep_copy {h : Heap} (hS : Sep h) (r : Nat) (key : String) (src : Ref) :
     effect h r (.fmtSetAt [] key src []) = effect h r (.inCopy key src) := by
-  simp only [effect, resolve, fmtArena_nil, shiftKeep_nil]
+  simp only [effect, fmtBind, resolve]
   split
   · rename_i hg
+    simp only [objIdx_shared hS hg, List.append_nil, fmtArena_nil, shiftKeep_nil]
     cases hc : h.get? (root r) with
     | none => rfl
     | some c =>
       cases c with
-      | leaf v => rfl
-      | list rs => rfl
       | dict kvs => simp only [shiftRef_reg]
+      | _ => rfl
   · rfl
 
 /-- Definition 0 is a step with `foreach: [{name: web, done: []}]`: cell 0 the foreach list, cell 1
     the item, cell 2 the atom, cell 3 the EMPTY list. -/
 def fmDefs : List Block := [[.list [1], .dict [("name", 2), ("done", 3)], .leaf (.str "web"), .list []]]
-def fmH : Heap := Heap.init fmDefs [.dict []]
+def fmSt : State := State.loaded fmDefs [.dict []]
+def fmH : Heap := fmSt.heap
+def fmRun (s : Sched) : Heap := (exec s fmSt).heap
+
+theorem fmSt_sep : Sep fmSt.heap := init_sep _ _ (by decide) (by decide)
 
 /-- one run: `i` bound to the formatted item, the step body fills `i['done']` in place
     (`pypyr.steps.contextmerge` extends lists in place, `py`: `i['done'].append(…)`) -/
@@ -366,11 +417,11 @@ def fmOps (keep : List Nat) : List Op :=
 
 example : SchedFixed (solo 1 (fmOps []) ++ solo 2 (fmOps [])) := by decide
 
-example : Sep (exec (solo 1 (fmOps []) ++ solo 2 (fmOps [])) fmH) :=
-  sep_invariant (s := solo 1 (fmOps []) ++ solo 2 (fmOps [])) (h := fmH) (by decide) (sep_init _ _)
+example : Sep (fmRun (solo 1 (fmOps []) ++ solo 2 (fmOps []))) :=
+  sep_invariant (s := solo 1 (fmOps []) ++ solo 2 (fmOps [])) (st := fmSt) (by decide) fmSt_sep
 
-example : (exec (solo 1 (fmOps []) ++ solo 2 (fmOps [])) fmH).arena (.defn 0) = fmH.arena (.defn 0) :=
-  defs_unchanged (s := solo 1 (fmOps []) ++ solo 2 (fmOps [])) (h := fmH) (by decide) (sep_init _ _) (.defn 0) rfl
+example : (fmRun (solo 1 (fmOps []) ++ solo 2 (fmOps []))).arena (.defn 0) = fmH.arena (.defn 0) :=
+  defs_unchanged (s := solo 1 (fmOps []) ++ solo 2 (fmOps [])) (st := fmSt) (by decide) fmSt_sep (.defn 0) rfl
 
 /-- `formatter_returns_container_counterexample`: a formatter that hands ONE container back as it is
     (here the empty list, cell 3: "nothing to format in there") breaks every statement above: the
@@ -378,19 +429,19 @@ example : (exec (solo 1 (fmOps []) ++ solo 2 (fmOps [])) fmH).arena (.defn 0) = 
     (`done: []` becomes `[checked]`, then `[checked, checked]`), the second run's context differs
     from the first's.  With the formatter as it is (`keep = []`) none of that happens. -/
 theorem formatter_returns_container_counterexample :
-    foreignReach 20 (exec (solo 1 (fmOps [3])) fmH) 1 = [⟨.defn 0, 3⟩] ∧
-    (exec (solo 1 (fmOps [3])) fmH).arena (.defn 0) ≠ fmH.arena (.defn 0) ∧
+    foreignReach 20 (fmRun (solo 1 (fmOps [3]))) 1 = [⟨.defn 0, 3⟩] ∧
+    (fmRun (solo 1 (fmOps [3]))).arena (.defn 0) ≠ fmH.arena (.defn 0) ∧
     deepVal 5 fmH ⟨.defn 0, 1⟩ = .dict [(.str "name", .str "web"), (.str "done", .list [])] ∧
-    deepVal 5 (exec (solo 1 (fmOps [3])) fmH) ⟨.defn 0, 1⟩ =
+    deepVal 5 (fmRun (solo 1 (fmOps [3]))) ⟨.defn 0, 1⟩ =
       .dict [(.str "name", .str "web"), (.str "done", .list [.str "checked"])] ∧
-    deepVal 5 (exec (solo 1 (fmOps [3]) ++ solo 2 (fmOps [3])) fmH) (root 2) ≠
-      deepVal 5 (exec (solo 1 (fmOps [3])) fmH) (root 1) ∧
+    deepVal 5 (fmRun (solo 1 (fmOps [3]) ++ solo 2 (fmOps [3]))) (root 2) ≠
+      deepVal 5 (fmRun (solo 1 (fmOps [3]))) (root 1) ∧
     -- the formatter as it is
-    foreignReach 20 (exec (solo 1 (fmOps [])) fmH) 1 = [] ∧
-    (exec (solo 1 (fmOps []) ++ solo 2 (fmOps [])) fmH).arena (.defn 0) = fmH.arena (.defn 0) ∧
-    deepVal 5 (exec (solo 1 (fmOps []) ++ solo 2 (fmOps [])) fmH) (root 2) =
-      deepVal 5 (exec (solo 1 (fmOps [])) fmH) (root 1) ∧
-    deepVal 5 (exec (solo 1 (fmOps [])) fmH) (root 1) =
+    foreignReach 20 (fmRun (solo 1 (fmOps []))) 1 = [] ∧
+    (fmRun (solo 1 (fmOps []) ++ solo 2 (fmOps []))).arena (.defn 0) = fmH.arena (.defn 0) ∧
+    deepVal 5 (fmRun (solo 1 (fmOps []) ++ solo 2 (fmOps []))) (root 2) =
+      deepVal 5 (fmRun (solo 1 (fmOps []))) (root 1) ∧
+    deepVal 5 (fmRun (solo 1 (fmOps []))) (root 1) =
       .dict [(.str "i", .dict [(.str "name", .str "web"), (.str "done", .list [.str "checked"])])] := by
   decide +kernel
 
@@ -401,36 +452,31 @@ theorem formatter_returns_container_counterexample :
   builds a new `StepsRunner` for the context of every call (`RunnerRule.perCall`), so the operations
   of a call act on the context handed to THAT call whatever the object went through before. -/
 
-theorem exec_append (s1 s2 : Sched) (h : Heap) : exec (s1 ++ s2) h = exec s2 (exec s1 h) := by
-  induction s1 generalizing h with
-  | nil => rfl
-  | cons e rest ih => exact ih _
-
 /-- `finished_run_unchanged`: whatever runs after run r's last operation – the same pipeline again,
     other pipelines, any number of runs, interleaved in any way – leaves every object of run r,
     hence its final context, exactly as it was. -/
-theorem finished_run_unchanged {s1 s2 : Sched} (hs : SchedFixed (s1 ++ s2)) {h : Heap} (hS : Sep h)
+theorem finished_run_unchanged {s1 s2 : Sched} (hs : SchedFixed (s1 ++ s2)) {st : State} (hS : Sep st.heap)
     (r : Nat) (hp : proj r s2 = []) :
-    (exec (s1 ++ s2) h).arena (.run r) = (exec s1 h).arena (.run r) := by
+    (exec (s1 ++ s2) st).heap.arena (.run r) = (exec s1 st).heap.arena (.run r) := by
   have h1 : SchedFixed s1 := fun e he => hs e (List.mem_append_left _ he)
   have h2 : SchedFixed s2 := fun e he => hs e (List.mem_append_right _ he)
-  rw [exec_append, interleaving_commutes h2 (exec_sep h1 hS) r, hp]
+  rw [exec_append, (interleaving_commutes h2 (exec_sep h1 hS) r).1, hp]
   rfl
 
-theorem finished_run_same_context {s1 s2 : Sched} (hs : SchedFixed (s1 ++ s2)) {h : Heap} (hS : Sep h)
+theorem finished_run_same_context {s1 s2 : Sched} (hs : SchedFixed (s1 ++ s2)) {st : State} (hS : Sep st.heap)
     (r : Nat) (hp : proj r s2 = []) (n : Nat) :
-    deepVal n (exec (s1 ++ s2) h) (root r) = deepVal n (exec s1 h) (root r) :=
+    deepVal n (exec (s1 ++ s2) st).heap (root r) = deepVal n (exec s1 st).heap (root r) :=
   deepVal_region (exec_sep (fun e he => hs e (List.mem_append_left _ he)) hS)
     (finished_run_unchanged hs hS r hp) n rfl
 
-example : (exec (solo 1 exOps ++ solo 2 exOps) exH).arena (.run 1) = (exec (solo 1 exOps) exH).arena (.run 1) :=
-  finished_run_unchanged (s1 := solo 1 exOps) (s2 := solo 2 exOps) (h := exH) (by decide) (sep_init _ _) 1
+example : (exec (solo 1 exOps ++ solo 2 exOps) exSt).heap.arena (.run 1) = (exec (solo 1 exOps) exSt).heap.arena (.run 1) :=
+  finished_run_unchanged (s1 := solo 1 exOps) (s2 := solo 2 exOps) (st := exSt) (by decide) exSt_sep 1
     (by decide)
 
 /-- `calls_perCall`: with a `StepsRunner` per call, a history of calls – on one object, on several,
     in whatever state those objects are – performs, call after call, the operations of that call on
     the context handed to that call. -/
-theorem calls_perCall (objs : Objs) (cs : List Call) :
+theorem calls_perCall {α : Type} (objs : Objs) (cs : List (CallOf α)) :
     callsSched .perCall objs cs = cs.flatMap fun c => c.sched c.run := by
   induction cs generalizing objs with
   | nil => rfl
@@ -438,7 +484,7 @@ theorem calls_perCall (objs : Objs) (cs : List Call) :
 
 /-- …so running an object again is running a fresh object: the operations are the same as when
     every call gets a `Pipeline` object of its own that has never run. -/
-theorem reused_object_same_as_fresh (objs : Objs) (cs : List Call) :
+theorem reused_object_same_as_fresh {α : Type} (objs : Objs) (cs : List (CallOf α)) :
     callsSched .perCall objs cs = callsSched .perCall Objs.fresh (cs.map fun c => { c with obj := c.run }) := by
   rw [calls_perCall, calls_perCall, List.flatMap_map]
   rfl
@@ -458,21 +504,25 @@ example : callsSched .perCall Objs.fresh exCalls =
     instance the one `c1` used – with the same program `ops` on a new context ends with the context
     `c1` ends with when it is the only run of the process.  (Calls without nested child runs: the
     operations of `c1` and `c2` are `ops` on their own context.) -/
-theorem reused_object_rerun_same (defs : List Block) (cfg : Block) (objs : Objs) (cs : List Call) (c1 c2 : Call)
+theorem reused_object_rerun_same (defs : List Block) (cfg : Block) (hd : ∀ b ∈ defs, PlainBlock b) (hc : PlainBlock cfg)
+    (objs : Objs) (cs : List Call) (c1 c2 : Call)
     {ops : List Op} (hfix : SchedFixed (callsSched .perCall objs cs)) (hops : ∀ o ∈ ops, o.fixed = true)
     (hc1 : c1.sched c1.run = solo c1.run ops) (hc2 : c2.sched c2.run = solo c2.run ops)
     (hp1 : proj c1.run (callsSched .perCall objs cs) = solo c1.run ops)
     (hp2 : proj c2.run (callsSched .perCall objs cs) = []) (n : Nat) :
-    deepVal n (exec (callsSched .perCall objs (cs ++ [c2])) (Heap.init defs cfg)) (root c2.run) =
-      deepVal n (exec (c1.sched c1.run) (Heap.init defs cfg)) (root c1.run) := by
+    deepVal n (exec (callsSched .perCall objs (cs ++ [c2])) (State.loaded defs cfg)).heap (root c2.run) =
+      deepVal n (exec (c1.sched c1.run) (State.loaded defs cfg)).heap (root c1.run) := by
   have happ : callsSched .perCall objs (cs ++ [c2]) = callsSched .perCall objs cs ++ solo c2.run ops := by
     simp only [calls_perCall, List.flatMap_append, List.flatMap_cons, List.flatMap_nil, List.append_nil, hc2]
   rw [happ, hc1]
-  exact rerun_after_history defs cfg hfix hops hp1 hp2 n
+  exact (rerun_after_history defs cfg hd hc hfix hops hp1 hp2 n).1
 
-example : deepVal 5 (exec (callsSched .perCall Objs.fresh exCalls) (Heap.init [] [.dict []])) (root 3) =
-    deepVal 5 (exec ((⟨0, 1, exPre, exSteps⟩ : Call).sched 1) (Heap.init [] [.dict []])) (root 1) :=
-  reused_object_rerun_same [] [.dict []] Objs.fresh (exCalls.take 2) ⟨0, 1, exPre, exSteps⟩ ⟨0, 3, exPre, exSteps⟩
+def plainSt : State := State.loaded [] [.dict []]
+theorem plainSt_sep : Sep plainSt.heap := init_sep [] [.dict []] (by decide) (by decide)
+
+example : deepVal 5 (exec (callsSched .perCall Objs.fresh exCalls) plainSt).heap (root 3) =
+    deepVal 5 (exec ((⟨0, 1, exPre, exSteps⟩ : Call).sched 1) plainSt).heap (root 1) :=
+  reused_object_rerun_same [] [.dict []] (by decide) (by decide) Objs.fresh (exCalls.take 2) ⟨0, 1, exPre, exSteps⟩ ⟨0, 3, exPre, exSteps⟩
     (ops := exPre ++ exSteps.map (·.2)) (by decide) (by decide) (by decide) (by decide) (by decide) (by decide) 5
 
 /-- `runner_kept_counterexample`: a `Pipeline` object that keeps its first `StepsRunner`
@@ -481,15 +531,201 @@ example : deepVal 5 (exec (callsSched .perCall Objs.fresh exCalls) (Heap.init []
     and run 3 – same program, equal initial context – does not end like run 1.  With a runner per
     call (the code as it is) none of that happens. -/
 theorem runner_kept_counterexample :
-    let h0 := Heap.init [] [.dict []]
-    let one := callsSched .keepFirst Objs.fresh (exCalls.take 1)
-    let all := callsSched .keepFirst Objs.fresh exCalls
-    deepVal 5 (exec one h0) (root 1) = .dict [(.str "log", .list [.str "tallied"])] ∧
-    deepVal 5 (exec all h0) (root 1) = .dict [(.str "log", .list [.str "tallied", .str "tallied", .str "tallied"])] ∧
-    deepVal 5 (exec all h0) (root 3) = .dict [(.str "log", .list [])] ∧
+    let one : Sched := callsSched .keepFirst Objs.fresh (exCalls.take 1)
+    let all : Sched := callsSched .keepFirst Objs.fresh exCalls
+    let per : Sched := callsSched .perCall Objs.fresh exCalls
+    deepVal 5 (exec one plainSt).heap (root 1) = .dict [(.str "log", .list [.str "tallied"])] ∧
+    deepVal 5 (exec all plainSt).heap (root 1) = .dict [(.str "log", .list [.str "tallied", .str "tallied", .str "tallied"])] ∧
+    deepVal 5 (exec all plainSt).heap (root 3) = .dict [(.str "log", .list [])] ∧
     -- a runner per call
-    deepVal 5 (exec (callsSched .perCall Objs.fresh exCalls) h0) (root 1) = .dict [(.str "log", .list [.str "tallied"])] ∧
-    deepVal 5 (exec (callsSched .perCall Objs.fresh exCalls) h0) (root 3) = .dict [(.str "log", .list [.str "tallied"])] := by
+    deepVal 5 (exec per plainSt).heap (root 1) = .dict [(.str "log", .list [.str "tallied"])] ∧
+    deepVal 5 (exec per plainSt).heap (root 3) = .dict [(.str "log", .list [.str "tallied"])] := by
+  decide +kernel
+
+/-! ### 8. the READING of steps is part of the model; schedules at step granularity
+
+  Sections 1–7 are about operation lists.  Which operations a step performs is itself a function of the
+  step (kind + configuration, `RunHeap.Instr`) and of what the context holds when the step starts
+  (`RunHeap.opsOf`: `pypyr.steps.append` / `add` test `context.get(key)` for truthiness, `Context.merge`
+  and `set_defaults` walk the current value, `Step.save_error` looks for `runErrors`).  The harness sends
+  the STEPS, the driver returns the operations it read and their result, and the harness compares the
+  operations with its own reading and the result with the implementation.  Here: every reading is in the
+  fixed language whatever the heap (`reading_is_fixed`), so all of the above holds for every schedule of
+  steps (`KSched`, the granularity of the property text), and two runs of the same PROGRAM – the same
+  list of steps; nothing is assumed about the operations – have the same step trace, outcome and final
+  context (`rerun_same_trace`): in twin states they read the same operations. -/
+
+/-- `opsOf_fixed`: for every step kind the harness reads, every configuration, every heap, the
+    operations are operations of the code as it is now (no aliasing constructor). -/
+theorem reading_is_fixed {h : Heap} {r : Nat} {i : Instr} {ops : List Op} (he : opsOf h r i = some ops) :
+    ∀ o ∈ ops, o.fixed = true := opsOf_fixed he
+
+/-- Equal reads under `Twin`: a second run in a twin state reads literally the same operations. -/
+theorem reading_same_for_twins {r1 r2 : Nat} {st st' : State} (hS : Sep st.heap) (hT : Twin r1 r2 st st')
+    (i : Instr) : opsOf st'.heap r2 i = opsOf st.heap r1 i := opsOf_twin hS hT.heap i
+
+/-- the readings of one step differ with the context: `append` to a missing / an empty / a non-empty list -/
+example :
+    let st0 := exec (solo 1 [.start [.dict [("e", 1), ("l", 2)], .list [], .list [3], .leaf (.int 0)]]) plainSt
+    opsOf st0.heap 1 (.append "new" (.int 5) false) = some [.setKey "new" [.list [1], .leaf (.int 5)]] ∧
+    opsOf st0.heap 1 (.append "e" (.int 5) false) = some [.setKey "e" [.list [1], .leaf (.int 5)]] ∧
+    opsOf st0.heap 1 (.append "l" (.int 5) false) = some [.appendAt [.key "l"] [.leaf (.int 5)]] ∧
+    opsOf st0.heap 1 (.merge (.dict [(.str "l", .list [.int 1]), (.str "e", .str "s"), (.str "n", .dict [])])) =
+      some [.extendAt [.key "l"] [[.leaf (.int 1)]], .setKey "e" [.leaf (.str "s")], .setKey "n" [.dict []]] := by
+  decide +kernel
+
+/-- `sep_invariant` / `defs_unchanged` for every schedule of steps – no hypothesis on the steps. -/
+theorem sep_invariant_steps (s : KSched) {st : State} (hS : Sep st.heap) : Sep (execK s st).heap :=
+  execK_sep s hS
+
+theorem defs_unchanged_steps (s : KSched) {st : State} (hS : Sep st.heap) :
+    ∀ g, g.isShared = true → (execK s st).heap.arena g = st.heap.arena g :=
+  fun _ hg => execK_arena_shared s hS hg
+
+/-- `interleaving_commutes` at step granularity, with the trace: in any schedule of steps run r ends
+    with the arena and the outcome of its solo run, and what an observer sees of run r after each of its
+    steps (context, over or not) is its solo trace. -/
+theorem interleaving_commutes_steps (s : KSched) {st : State} (hS : Sep st.heap) (r n : Nat) :
+    (execK s st).heap.arena (.run r) = (execK (projK r s) st).heap.arena (.run r) ∧
+    (execK s st).dead r = (execK (projK r s) st).dead r ∧
+    obsFor r (logK n s st) = traceK n r ((projK r s).map (·.2)) st := by
+  have hT := execK_proj_twin (r := r) s hS (twin_refl r st)
+  refine ⟨?_, hT.dead.symm, logK_proj_twin n s hS (twin_refl r st)⟩
+  rw [hT.heap.own, map_renCell_self]
+
+theorem soloK_map_snd (r : Nat) (is : List Instr) : (soloK r is).map (·.2) = is := by
+  induction is with
+  | nil => rfl
+  | cons i rest ih => simp only [soloK, List.map_cons, List.map_map] at ih ⊢; rw [ih]
+
+/-- `rerun_same_trace`: two runs r1, r2 that have not started and execute THE SAME PROGRAM (list of
+    steps) anywhere inside a schedule of steps – in either order, interleaved, any other runs around –
+    show the same step trace (context after every step, over or not), the same outcome, and end with
+    the same context (arena renamed).  Nothing is assumed about their operation lists: they are read
+    from the steps, and equal reads follow from the twin relation. -/
+theorem rerun_same_trace (s : KSched) {st : State} (hS : Sep st.heap) {r1 r2 : Nat} {prog : List Instr}
+    (h1 : st.heap.arena (.run r1) = []) (h2 : st.heap.arena (.run r2) = []) (hd : st.dead r2 = st.dead r1)
+    (p1 : projK r1 s = soloK r1 prog) (p2 : projK r2 s = soloK r2 prog) (n : Nat) :
+    obsFor r2 (logK n s st) = obsFor r1 (logK n s st) ∧
+    (execK s st).dead r2 = (execK s st).dead r1 ∧
+    (execK s st).heap.arena (.run r2) = ((execK s st).heap.arena (.run r1)).map (renCell r1 r2) := by
+  have hT0 : Twin r1 r2 st st := ⟨⟨fun _ _ => rfl, by rw [h1, h2]; rfl⟩, hd⟩
+  have i1 := interleaving_commutes_steps s hS r1 n
+  have i2 := interleaving_commutes_steps s hS r2 n
+  have hT := execK_soloK_twin prog hS hT0
+  refine ⟨?_, ?_, ?_⟩
+  · rw [i2.2.2, i1.2.2, p1, p2, soloK_map_snd, soloK_map_snd]
+    exact traceK_twin n prog hS hT0
+  · rw [i2.2.1, i1.2.1, p1, p2]; exact hT.dead
+  · rw [i2.1, i1.1, p1, p2]; exact hT.heap.own
+
+/-- a program whose readings depend on the context: `lst` is missing, then non-empty; the second step
+    of run 7 is read as "bind a new list", its third as "append in place" -/
+def exProg : List Instr :=
+  [.ctxStart (.dict [(.str "a", .int 5)]), .append "lst" (.int 1) false, .append "lst" (.int 2) false,
+   .merge (.dict [(.str "lst", .list [.int 3]), (.str "d", .dict [(.str "x", .int 1)])]),
+   .py [.append [.key "nokey"] (.int 0)], .setf [("never", .int 1)]]
+
+/-- runs 7 and 8 interleaved step by step -/
+def exKSched : KSched := (List.zip (soloK 7 exProg) (soloK 8 exProg)).flatMap (fun p => [p.1, p.2])
+
+example : obsFor 8 (logK 6 exKSched plainSt) = obsFor 7 (logK 6 exKSched plainSt) :=
+  (rerun_same_trace exKSched (st := plainSt) plainSt_sep (r1 := 7) (r2 := 8)
+    (prog := exProg) rfl rfl rfl (by decide) (by decide) 6).1
+
+/-- …and concretely: the trace ends when the fifth step raises; the run is over, `never` is never set -/
+example : (obsFor 7 (logK 6 exKSched plainSt)).map (·.2) = [false, false, false, false, true, true] ∧
+    (obsFor 7 (logK 6 exKSched plainSt))[3]? = some (.dict [(.str "a", .int 5), (.str "lst", .list [.int 1, .int 2, .int 3]),
+      (.str "d", .dict [(.str "x", .int 1)])], false) := by
+  decide +kernel
+
+/-! ### 9. shared by reference but never written
+
+  Separation (`Sep`) forbids a run to HOLD a shared object.  The code does hold some: an atom-only tuple
+  is handed on by `copy.deepcopy` as it is, and `Pipeline.new_pipe_and_args` stores
+  `shortcut.get('groups')` – the configuration's own list – on the `Pipeline` object, where the runner
+  only reads it.  What matters for the property is that such an object is never WRITTEN:
+
+  * cells: `tuple` (immutable container) and `leaf` are never the target of any operation's write
+    (`tuple_and_atom_immutable`: any operation, any state, no hypothesis);
+  * `defs_unchanged_shared_readonly`: for ANY schedule – aliasing operations included, no separation –
+    that never writes to a shared object (`neverWritesShared`, decidable on a concrete schedule) every
+    definition and the configuration are exactly what they were;
+  * `PipeObj.held`: a reference a `Pipeline` object keeps is not changed by any history of calls
+    (`held_reference_kept`) and reads the same value after it (`held_reference_reads_same`): no
+    operation has a `Pipeline` object's slot as its target. -/
+
+/-- Atoms and tuples are immutable objects of the model: whatever is executed, by whichever runs, in
+    whatever state, a cell that is a leaf or a tuple stays that cell. -/
+theorem tuple_and_atom_immutable (s : Sched) {st : State} {x : Ref} {c : Cell} (hx : st.heap.get? x = some c)
+    (hc : Cell.isMutable c = false) : (exec s st).heap.get? x = some c :=
+  frozen_cell_exec s hx hc
+
+/-- `defs_unchanged` under "shared by reference but never written". -/
+theorem defs_unchanged_shared_readonly {s : Sched} {st : State} (hn : neverWritesShared s st = true) :
+    ∀ g, g.isShared = true → (exec s st).heap.arena g = st.heap.arena g :=
+  fun _ hg => exec_readonly_shared hn hg
+
+/-- `config.vars = {}`, `config.shortcuts = {sc: {groups: [a, (b, c)]}}`: a list holding an atom and a tuple. -/
+def exCfgGroups : Block :=
+  [.dict [], .dict [("sc", 2)], .dict [("groups", 3)], .list [4, 5], .leaf (.str "a"), .tuple [6, 7],
+   .leaf (.str "b"), .leaf (.str "c")]
+def grSt : State := State.loaded [] exCfgGroups
+
+/-- a run that HOLDS the configuration's list by reference, copies the reference, reads through it, and
+    changes only its own objects … -/
+def holdOps : List Op :=
+  [.start [.dict [("own", 1)], .list []], .inAlias "groups" ⟨.config, 3⟩, .copyKey "groups" "again",
+   .appendAt [.key "own"] [.leaf (.int 1)], .unsetIn "groups"]
+/-- … and one that appends to it -/
+def holdWriteOps : List Op := holdOps.take 3 ++ [.appendAt [.key "again"] [.leaf (.str "x")]]
+
+example : ¬ SchedFixed (solo 1 holdOps) := by decide
+
+/-- held, never written: nothing shared changes (although the schedule is outside the fixed language and
+    the context reaches the configuration's list); written once: the hypothesis fails and so does the
+    conclusion; the tuple inside the list stays what it is in both. -/
+example :
+    neverWritesShared (solo 1 holdOps) grSt = true ∧
+    foreignReach 20 (exec (solo 1 (holdOps.take 3)) grSt).heap 1 = [⟨.config, 3⟩, ⟨.config, 5⟩] ∧
+    (exec (solo 1 holdOps) grSt).heap.arena .config = grSt.heap.arena .config ∧
+    neverWritesShared (solo 1 holdWriteOps) grSt = false ∧
+    (exec (solo 1 holdWriteOps) grSt).heap.arena .config ≠ grSt.heap.arena .config ∧
+    (exec (solo 1 holdWriteOps) grSt).heap.get? ⟨.config, 5⟩ = some (.tuple [⟨.config, 6⟩, ⟨.config, 7⟩]) := by
+  decide +kernel
+
+example : (exec (solo 1 holdOps) grSt).heap.arena .config = grSt.heap.arena .config :=
+  defs_unchanged_shared_readonly (s := solo 1 holdOps) (st := grSt) (by decide +kernel) .config rfl
+
+/-- What a `Pipeline` object holds is not changed by calling it (or any other object), under either
+    runner rule. -/
+theorem held_reference_kept {α : Type} (rule : RunnerRule) (objs : Objs) (cs : List (CallOf α)) (o : Nat) :
+    (callsObjs rule objs cs o).held = (objs o).held := by
+  induction cs generalizing objs with
+  | nil => rfl
+  | cons c rest ih =>
+    simp only [callsObjs]
+    rw [ih]
+    simp only [Objs.put]
+    split
+    · rename_i ho; subst ho
+      simp only [PipeObj.call]
+      split <;> rfl
+    · rfl
+
+/-- …and after any history of calls it reads the same value: the object a `Pipeline` holds by reference
+    (the configuration's `groups` list) is read-only state, run k of the object sees what run 1 saw. -/
+theorem held_reference_reads_same (rule : RunnerRule) (objs : Objs) (cs : List Call) {st : State}
+    (hS : Sep st.heap) (hfix : SchedFixed (callsSched rule objs cs)) (o n : Nat) {x : Ref}
+    (hx : (objs o).held = some x) (hsh : x.reg.isShared = true) :
+    (callsObjs rule objs cs o).held = some x ∧
+    deepVal n (exec (callsSched rule objs cs) st).heap x = deepVal n st.heap x :=
+  ⟨by rw [held_reference_kept, hx], defs_deep_equal hfix hS n hsh⟩
+
+example :
+    let objs : Objs := Objs.fresh.put 0 ⟨none, some ⟨.config, 3⟩⟩
+    (callsObjs .perCall objs exCalls 0).held = some ⟨.config, 3⟩ ∧
+    deepVal 5 (exec (callsSched .perCall objs exCalls) grSt).heap ⟨.config, 3⟩ = .list [.str "a", .tuple [.str "b", .str "c"]] := by
   decide +kernel
 
 end Pypyr.C12
